@@ -526,16 +526,16 @@ def run_sched(c, P):
                                % (e, calls, wire_tags), sig='C11: compression order differs from wire order (context takeover)')
                     c.fail('C11: the peer cannot inflate the messages although they were written in the order they were compressed: %s '
                            '(compress order %s)' % (e, calls), sig='C11: peer cannot inflate; compression order equals wire order')
-            # match against the head of some thread's queue
-            matched = None
-            for n, q in remaining.items():
-                if q and q[0][0] == f['opcode'] and symdata.tb(eq_items(q[0][1], pay)):
-                    matched = n
-                    break
-            if matched is None:
-                c.fail('C11: a frame on the wire (opcode %d) is not the next message of any sender (lost/duplicated/reordered within a thread)'
-                       % f['opcode'], sig='C11: wire does not contain exactly the messages sent in per-thread order')
-            remaining[matched].pop(0)
+            # the frame must be the next message of the thread that wrote it
+            who, _snap = _writer_of_frame(parts, frames, frames.index(f))
+            q = remaining.get(who)
+            if not q or q[0][0] != f['opcode']:
+                c.fail('C11: a frame on the wire (opcode %d, written by %s) is not the next message of that thread '
+                       '(lost/duplicated/reordered within a thread)' % (f['opcode'], who),
+                       sig='C11: wire does not contain exactly the messages sent in per-thread order')
+            c.prove(eq_items(q[0][1], pay), 'C11: frame written by %s does not carry the payload of its next message' % who,
+                    sig='C11: wire does not contain exactly the messages sent in per-thread order')
+            q.pop(0)
         left = {n: q for n, q in remaining.items() if q}
         if left:
             c.fail('C11: %d message(s) never reached the wire' % sum(len(q) for q in left.values()),
